@@ -35,7 +35,7 @@ KINDS = {
 class C03(Check):
     ID = 'C03'
     LEVEL = 'exploration'
-    BUDGET = {'quick': 30, 'thorough': 300}
+    BUDGET = {'quick': 30, 'thorough': 240}
     RULE = ('case = (program, input). Programs come from the typed generator biased to structure: nesting depth 0..4 of group_by / roll / split / time_split / tee_map around '
             'arbitrary operators (incl. the multiplexed-only ones), window <,=,> stride, filters that empty a group, take(0); inputs of length 0, 1, shorter than a window, and '
             'long. The automaton runs on EVERY MuxObservable subscription of the run (10-40 boundaries per program). non-trivial = >= 2 nested key-producing operators or an '
@@ -48,7 +48,7 @@ class C03(Check):
     REQUIRED_OBSERVED = ['boundary:' + k for k in KINDS] + ['events:create', 'events:next', 'events:completed', 'events:on_completed']
 
     def generate(self, rng, tier, shard, nshards):
-        n = 3500 if tier == 'quick' else 60000
+        n = 3500 if tier == 'quick' else 10 ** 7
         for k in range(n):
             if tier == 'thorough' and k % 4 == 3:
                 # the workloads of the differential checks, with only this monitor deciding
